@@ -1,7 +1,9 @@
 (* C07 clause 705 (Session/SpecCause.v): a store reset never happens without a cause, on every trace of the model.
-   Instance P = "not a store reset" of the closure NewCbProofs.v: with no reset option configured and nothing buffered, an
-   event that is not a cause logs no CbStoreReset -- through every handler, the drain of the kept messages (never a Logon:
-   invariant TS), the timers, connect, disconnect and stop. *)
+   Instance P = "not a store reset" of the closure NewCbProofs.v: with no reset option configured, an event that is not a
+   cause logs no CbStoreReset -- through every handler, the drain of the kept messages (never a Logon: invariant TS), the
+   timers, connect, disconnect and stop, AND through drainMessageIn (section Drain of NewCbProofs.v: the buffered frames are
+   handled first, in the state the session is still in) as long as no buffered frame is a Logon carrying 141=Y, which the
+   scan tracks (`pend`, invariant BP). *)
 From Coq Require Import String.
 From Coq Require Import ZArith List Bool Lia.
 From QF Require Import Base.Bytes Session.Types Session.Model Session.Spec Session.SpecCause Session.C01Proofs Session.LocalProofs
@@ -33,15 +35,29 @@ Proof.
   - right. exact H.
 Qed.
 
-(* clause 705 as a step: without a reset option and with nothing buffered, an event that is not a cause resets nothing *)
+(* the buffered frames: none is a Logon carrying 141=Y *)
+Definition buf_clean (l : list (option minput)) : Prop := forall mm, In (Some mm) l -> is_reset_logon mm = false.
+
+Lemma not_reset_logon_m_ok m : is_reset_logon m = false -> m_ok P705 m.
+Proof.
+  intros H. split; [apply p705_msg|]. right. unfold is_reset_logon in H. unfold reset_flag.
+  destruct (beq_bytes (mi_type m) T_LOGON); [right; exact H | left; reflexivity].
+Qed.
+
+Lemma buf_clean_ok l : buf_clean l -> buf_ok P705 l.
+Proof. intros H mm Hm. apply not_reset_logon_m_ok. exact (H mm Hm). Qed.
+
+(* clause 705 as a step: without a reset option, an event that is not a cause resets nothing -- whatever is buffered, as long
+   as no buffered frame is a Logon carrying 141=Y (the buffered frames are handled by EDeliver, and by handleDisconnectState
+   before it disconnects) *)
 Theorem step_no_reset_without_cause s e :
-  TS s -> s_in_buf s = [] -> no_reset_option (s_cfg s) = true -> reset_cause e = false ->
+  TS s -> buf_clean (s_in_buf s) -> no_reset_option (s_cfg s) = true -> reset_cause e = false ->
   ~ In CbStoreReset (s_cbs (step s e)).
 Proof.
   intros Hts Hb Hn Hc Hin. unfold step in Hin.
   assert (H : Ncb P705 (clear_logs s) (step_event (clear_logs s) e)).
-  { apply (ncb_step_event P705 p705_toadmin p705_toapp eq_refl eq_refl);
-      [exact Hb | right; exact Hn | apply ts_all_ok_705; exact Hts | apply cause_ev_ok; exact Hc | apply ncb_refl]. }
+  { apply (ncb_step_event_buffered P705 p705_toadmin p705_toapp eq_refl eq_refl);
+      [right; exact Hn | apply ts_all_ok_705; exact Hts | apply buf_clean_ok; exact Hb | apply cause_ev_ok; exact Hc | apply ncb_refl]. }
   destruct (H CbStoreReset Hin) as [Hf|Hp]; [exact Hf | discriminate Hp].
 Qed.
 
@@ -51,26 +67,44 @@ Proof.
   apply in_rev. exact Hx.
 Qed.
 
-Lemma c07_cause_event : forall i s e, TS s ->
-  (if has_reset (ob_cbs (obs_of (step s e))) && no_reset_option (s_cfg s) && (ob_inbuf (obs_of s) =? 0) && negb (reset_cause e)
+(* the scan's `pend` is sound: when it is false no Logon carrying 141=Y sits in the buffer *)
+Definition BP (s : sess) (pend : bool) : Prop := pend = false -> buf_clean (s_in_buf s).
+
+Definition pend_next (e : event) (o : obs) (pend : bool) : bool := if ob_inbuf o =? 0 then false else pend || arrives_reset e.
+
+Lemma step_bp s e pend : Boundary s -> BP s pend -> BP (step s e) (pend_next e (obs_of (step s e)) pend).
+Proof.
+  intros Hb Hbp Hp mm Hm. unfold pend_next in Hp.
+  change (ob_inbuf (obs_of (step s e))) with (Z.of_nat (length (s_in_buf (step s e)))) in Hp.
+  destruct (Z.of_nat (length (s_in_buf (step s e))) =? 0) eqn:E0.
+  { apply len0 in E0. rewrite E0 in Hm. destruct Hm. }
+  apply orb_false_elim in Hp as [Hp Ha].
+  destruct (step_in_buf s e Hb) as [H|[H|[(m & -> & H)|(_ & m & H)]]].
+  - rewrite H in Hm. destruct Hm.
+  - rewrite H in Hm. exact (Hbp Hp mm Hm).
+  - rewrite H in Hm. apply in_app_or in Hm as [Hm|[Hm|[]]]; [exact (Hbp Hp mm Hm)|]. inv Hm. exact Ha.
+  - apply (Hbp Hp mm). rewrite H. right. exact Hm.
+Qed.
+
+Lemma c07_cause_event : forall i s e pend, TS s -> BP s pend ->
+  (if has_reset (ob_cbs (obs_of (step s e))) && no_reset_option (s_cfg s) && negb pend && negb (reset_cause e)
    then [(i, 705)] else []) = ([] : list failure).
 Proof.
-  intros i s e Hts.
+  intros i s e pend Hts Hbp.
   match goal with |- (if ?x then _ else _) = [] => destruct x eqn:Ec; [|reflexivity] end.
   exfalso.
   apply andb_true_iff in Ec as [Ec E4]. apply andb_true_iff in Ec as [Ec E3]. apply andb_true_iff in Ec as [E1 E2].
-  change (ob_inbuf (obs_of s)) with (Z.of_nat (length (s_in_buf s))) in E3. apply len0 in E3.
-  apply negb_true_iff in E4.
-  exact (step_no_reset_without_cause s e Hts E3 E2 E4 (has_reset_in _ E1)).
+  apply negb_true_iff in E3. apply negb_true_iff in E4.
+  exact (step_no_reset_without_cause s e Hts (Hbp E3) E2 E4 (has_reset_in _ E1)).
 Qed.
 
-Lemma c07_cause_scan_ok : forall es s i, RI s -> LB s -> TS s ->
-  c07_cause_scan (s_cfg s) i (obs_of s) (combine es (map obs_of (run_trace es s))) = [].
+Lemma c07_cause_scan_ok : forall es s i pend, Boundary s -> RI s -> LB s -> TS s -> BP s pend ->
+  c07_cause_scan (s_cfg s) i pend (combine es (map obs_of (run_trace es s))) = [].
 Proof.
-  induction es as [|e r IH]; intros s i Hri Hlb Hts; cbn [run_trace map combine c07_cause_scan]; [reflexivity|].
-  rewrite (c07_cause_event i s e Hts). cbn [app].
+  induction es as [|e r IH]; intros s i pend Hb Hri Hlb Hts Hbp; cbn [run_trace map combine c07_cause_scan]; [reflexivity|].
+  rewrite (c07_cause_event i s e pend Hts Hbp). cbn [app].
   rewrite <- (step_cfg (s_cfg s) s e eq_refl).
-  apply IH; [apply step_ri | apply step_lb | apply step_ts]; assumption.
+  apply IH; [apply step_boundary | apply step_ri | apply step_lb | apply step_ts | exact (step_bp s e pend Hb Hbp)]; assumption.
 Qed.
 
 (* C07, trace level: clause 705 never fails -- on every trace of the model the predicate reports nothing at all *)
@@ -78,7 +112,7 @@ Theorem c07_no_reset_without_cause : forall c es,
   c07_cause_check c (combine es (map obs_of (run_trace es (init_sess c)))) = [].
 Proof.
   intros c es. unfold c07_cause_check.
-  apply (c07_cause_scan_ok es (init_sess c)); [apply init_ri | apply init_lb | apply init_ts].
+  apply (c07_cause_scan_ok es (init_sess c)); [apply init_boundary | apply init_ri | apply init_lb | apply init_ts | intros _ mm []].
 Qed.
 
 (* the code is not produced by c07_check either (its scan has no clause 705) *)
@@ -119,11 +153,31 @@ Lemma rcx_trace_resets :
   /\ c07_cause_check (rcx_cfg Acceptor) (rcx_run (rcx_cfg Acceptor) rcx_trace) = [].
 Proof. vm_compute. split; reflexivity. Qed.
 
-(* the guard "nothing buffered" delimits the statement: a Logon carrying 141=Y that sits in the inbound buffer is processed
-   by a later EDeliver, which is not itself a cause; the predicate does not speak about that event *)
+(* buffered frames are covered: two Heartbeats are buffered; one is delivered (EDeliver), the other is handled by
+   handleDisconnectState when the connection is lost (EInClosed) -- the predicate looks at both events (pend is false) and
+   nothing is reset; the counters persist *)
+Definition rcx_drain_trace : list event :=
+  [EConnect; EIncoming (rcx_msg T_LOGON 1 FAbsent); EArrive (rcx_msg T_HEARTBEAT 2 FAbsent); EArrive (rcx_msg T_HEARTBEAT 3 FAbsent);
+   EDeliver; EInClosed].
+Lemma rcx_drain_trace_keeps :
+  map (fun o => (ob_inbuf (snd o), ob_snd (snd o), ob_tgt (snd o), has_reset (ob_cbs (snd o)))) (rcx_run (rcx_cfg Acceptor) rcx_drain_trace)
+  = [(0, 1, 1, false); (0, 2, 2, false); (1, 2, 2, false); (2, 2, 2, false); (1, 2, 3, false); (0, 2, 4, false)]
+  /\ c07_cause_check (rcx_cfg Acceptor) (rcx_run (rcx_cfg Acceptor) rcx_drain_trace) = [].
+Proof. vm_compute. split; reflexivity. Qed.
+
+(* `pend` delimits the statement: a Logon carrying 141=Y that sits in the inbound buffer is processed by a later EDeliver
+   -- or, since the repair of F17, by handleDisconnectState in the logon state when the connection is lost --, events that
+   are not themselves causes; the predicate does not speak about those events (pend is true) *)
 Definition rcx_buffered_trace : list event := [EConnect; EArrive (rcx_msg T_LOGON 1 (FVal true)); EDeliver].
 Lemma rcx_buffered_trace_resets :
   map (fun o => (ob_inbuf (snd o), has_reset (ob_cbs (snd o)), reset_cause (fst o))) (rcx_run (rcx_cfg Acceptor) rcx_buffered_trace)
   = [(0, false, false); (1, false, false); (0, true, false)]
   /\ c07_cause_check (rcx_cfg Acceptor) (rcx_run (rcx_cfg Acceptor) rcx_buffered_trace) = [].
+Proof. vm_compute. split; reflexivity. Qed.
+Definition rcx_buffered_closed_trace : list event := [EConnect; EArrive (rcx_msg T_LOGON 1 (FVal true)); EInClosed].
+Lemma rcx_buffered_closed_trace_resets :
+  map (fun o => (ob_inbuf (snd o), ob_st (snd o), has_reset (ob_cbs (snd o)), reset_cause (fst o)))
+      (rcx_run (rcx_cfg Acceptor) rcx_buffered_closed_trace)
+  = [(0, ShLogon, false, false); (1, ShLogon, false, false); (0, ShLatent, true, false)]
+  /\ c07_cause_check (rcx_cfg Acceptor) (rcx_run (rcx_cfg Acceptor) rcx_buffered_closed_trace) = [].
 Proof. vm_compute. split; reflexivity. Qed.
